@@ -60,8 +60,8 @@ std::string RunCfg::brief() const {
   std::string r = prog;
   for (auto &a : argv) { r += " "; r += a; }
   char b[256];
-  snprintf(b, sizeof b, " | sched=%s%s seed=%llu param=%u spurious=%u devs=%zu | in=%d/frag%d out=%d/frag%d", sim::policy_name(sched.policy), sched.explicit_ ? "(explicit)" : "",
-           (unsigned long long)sched.seed, sched.param, sched.spurious, sched.devs.size(), in_kind, in_frag.mode, out_kind, out_frag.mode);
+  snprintf(b, sizeof b, " | sched=%s%s seed=%llu param=%u spurious=%u preempt=%u devs=%zu | in=%d/frag%d out=%d/frag%d", sim::policy_name(sched.policy), sched.explicit_ ? "(explicit)" : "",
+           (unsigned long long)sched.seed, sched.param, sched.spurious, sched.preempt, sched.devs.size(), in_kind, in_frag.mode, out_kind, out_frag.mode);
   r += b;
   if (in_granul || out_granul || copy_granul) { snprintf(b, sizeof b, " | granul in=%zu out=%zu copy=%zu", in_granul, out_granul, copy_granul); r += b; }
   for (auto &f : faults) { snprintf(b, sizeof b, " | fault %s#%d role%d errno=%d partial=%lld", sim::call_name(f.call), f.k, f.role, f.err, (long long)f.partial); r += b; }
@@ -184,7 +184,7 @@ void Stats::absorb(const RunCfg &cfg, const sim::Result &r) {
   if (cfg.copy_granul) inc("knob.copy_granul");
   for (auto &kv : r.reach) inc("reach." + kv.first, kv.second);
   for (auto &kv : r.reach) inc("reachruns." + kv.first);
-  for (auto &kv : r.qmax) { max("qmax." + kv.first, kv.second.first); max("qcap." + kv.first, kv.second.second); }
+  for (auto &kv : r.qmax) { max("qmax." + kv.first, kv.second.first); max("qcap." + kv.first, kv.second.second); if (kv.second.second) max("qfill." + kv.first, 100ull * kv.second.first / kv.second.second); }
   if (r.preemptions >= 1 && r.max_live_fibers >= 3) distinct("interleavings", r.ihash);
   for (auto h : r.states) distinct("sched_states", h);
   inc("preemptions", r.preemptions);
@@ -202,6 +202,7 @@ sim::Sched random_sched(Rng &rng, bool allow_spurious) {
   else if (s.policy == sim::P_PCT) s.param = (uint32_t)rng.below(3);
   else s.param = 8;
   s.spurious = allow_spurious && rng.below(3) == 0 ? 20u << rng.below(5) : 0;
+  if (!strcmp(sim::variant(), "preempt")) { static const uint32_t means[] = {300, 3000, 3000, 30000, 30000, 300000, 3000000}; s.preempt = means[rng.below(7)]; }
   return s;
 }
 sim::Frag random_frag(Rng &rng) {
@@ -245,7 +246,7 @@ std::string case_to_text(const Case &c, const Verdict &v, uint64_t hash) {
     put_frag(o, "infrag", r.in_frag); put_frag(o, "outfrag", r.out_frag); put_frag(o, "filefrag", r.file_frag);
     for (auto &f : r.faults) o << " fault " << f.call << " " << f.role << " " << f.k << " " << f.err << " " << f.partial << "\n";
     for (auto &e : r.sigs) o << " sig " << e.step << " " << e.sig << "\n";
-    o << " sched " << r.sched.policy << " " << r.sched.seed << " " << r.sched.param << " " << r.sched.spurious << " " << (int)r.sched.explicit_ << "\n";
+    o << " sched " << r.sched.policy << " " << r.sched.seed << " " << r.sched.param << " " << r.sched.spurious << " " << (int)r.sched.explicit_ << " " << r.sched.preempt << "\n";
     if (!r.sched.devs.empty()) { o << " devs"; for (auto &d : r.sched.devs) o << " " << d.first << ":" << d.second; o << "\n"; }
     o << "endrun\n";
   }
@@ -289,7 +290,7 @@ bool case_from_text(const std::string &text, Case *c, Verdict *v, uint64_t *hash
       else if (k == "filefrag") is >> cur->file_frag.mode >> cur->file_frag.param;
       else if (k == "fault") { sim::Fault f; is >> f.call >> f.role >> f.k >> f.err >> f.partial; cur->faults.push_back(f); }
       else if (k == "sig") { sim::SigEvent e; is >> e.step >> e.sig; cur->sigs.push_back(e); }
-      else if (k == "sched") { int ex; is >> cur->sched.policy >> cur->sched.seed >> cur->sched.param >> cur->sched.spurious >> ex; cur->sched.explicit_ = ex; }
+      else if (k == "sched") { int ex; is >> cur->sched.policy >> cur->sched.seed >> cur->sched.param >> cur->sched.spurious >> ex; cur->sched.explicit_ = ex; uint32_t pr = 0; if (is >> pr) cur->sched.preempt = pr; }
       else if (k == "devs") { std::string t; while (is >> t) { size_t c2 = t.find(':'); cur->sched.devs.push_back({(uint32_t)strtoul(t.c_str(), 0, 10), (uint32_t)strtoul(t.c_str() + c2 + 1, 0, 10)}); } }
     }
   }
@@ -335,6 +336,7 @@ Case shrink(const Driver &d, const Case &c0, const Verdict &v0, int max_evals, i
     for (size_t k = best.runs[r].faults.size(); k-- > 0;) { Case cand = best; cand.runs[r].faults.erase(cand.runs[r].faults.begin() + k); try_case(cand); }
     for (size_t k = best.runs[r].sigs.size(); k-- > 0;) { Case cand = best; cand.runs[r].sigs.erase(cand.runs[r].sigs.begin() + k); try_case(cand); }
     if (best.runs[r].sched.spurious) { Case cand = best; cand.runs[r].sched.spurious = 0; if (cand.runs[r].sched.explicit_) cand.runs[r].sched.devs.clear(); try_case(cand); }
+    if (best.runs[r].sched.preempt && !best.runs[r].sched.explicit_) { Case cand = best; cand.runs[r].sched.preempt = 0; try_case(cand); }
     if (best.runs[r].in_granul || best.runs[r].out_granul || best.runs[r].copy_granul) { Case cand = best; cand.runs[r].in_granul = cand.runs[r].out_granul = cand.runs[r].copy_granul = 0; try_case(cand); }
     if (best.runs[r].in_frag.mode) { Case cand = best; cand.runs[r].in_frag = sim::Frag(); try_case(cand); }
     if (best.runs[r].out_frag.mode) { Case cand = best; cand.runs[r].out_frag = sim::Frag(); try_case(cand); }
@@ -588,8 +590,10 @@ int run_check(const std::string &prop, int tier, uint64_t master, int jobs) {
   all.save(std::string("build/tmp/part-") + prop + "-" + sim::variant() + run_tag() + ".txt");
   printf("%s %s %s: cases=%llu/%llu runs=%llu distinct_nontrivial=%zu violations=%d known=%d nondet=%d wall=%.1fs\n", prop.c_str(), tier ? "thorough" : "quick", sim::variant(),
          (unsigned long long)all.n["cases"], (unsigned long long)N, (unsigned long long)all.n["runs"], all.d.count("nontrivial") ? all.d["nontrivial"].size() : 0, reported, known_hits, nondet, wall);
-  if (nondet) return 2;
-  return reported ? 1 : 0;
+  // a candidate that fails its replay gate is never reported as a violation; it turns the whole check into
+  // "machinery problem" (exit 2) only when no other violation of this run was confirmed
+  if (reported) return 1;
+  return nondet ? 2 : 0;
 }
 
 
@@ -641,6 +645,7 @@ int write_evidence(const std::string &prop, int tier, uint64_t master, const std
   dump_prefix("reach_runs", "reachruns.", all.n);
   dump_prefix("queue_max_occupancy", "qmax.", all.mx);
   dump_prefix("queue_capacity", "qcap.", all.mx);
+  dump_prefix("queue_max_fill_percent_of_its_capacity_in_one_run", "qfill.", all.mx);
   dump_prefix("policies", "policy.", all.n);
   dump_prefix("workers", "workers.", all.n);
   dump_prefix("run_endings", "end.", all.n);
